@@ -14,6 +14,15 @@ model gives them `keep := true` unconditionally). -/
 theorem C14_fact_store_first :
     (keepPlCreate && keepPlDelete && keepCnCreate && keepCnDelete && keepPrCreate && keepPrDelete) = true := by decide
 
+/-- `pipeline.Service.UpdateStatus` keeps the NEW status in memory when its store write fails
+(`svcPlStatus … keep := false` in the model) — deliberately unlike the ten configuration sites
+(F7): the status is not a stored configuration value the memory must mirror, it reflects the
+*run*. `lifecycle.runPipeline` launches the nodes first and only then records
+`StatusRunning`; if that write fails the nodes keep running, and the in-memory status is what
+the orchestrator's running guards (`C14_guards`) read. Restoring the old status on a failed
+write would let API mutations through on a live pipeline. -/
+theorem C14_fact_status_write_keeps_new : keepPlStatus = false := by decide
+
 /-- every other mutating service method is one of the two shapes the model's `Variant`
 distinguishes: mutate-then-store (`MS`) or mutate-then-store with restore (`MSR`) / store-first. -/
 theorem C14_fact_shapes_modelled :
